@@ -549,6 +549,8 @@ class SimOS(object):
 
 
 def snapshot_digest(snap, under="/"):
+    """Cheap content key of a snapshot (path, length, bytes-hash per file;
+    PYTHONHASHSEED is pinned by ./check, so it is stable across processes)."""
     files, dirs = snap
     h = hashlib.sha256()
     for p in sorted(dirs):
@@ -556,8 +558,8 @@ def snapshot_digest(snap, under="/"):
             h.update(("D" + p + "\n").encode())
     for p in sorted(files):
         if p.startswith(under):
-            h.update(("F" + p + "\n").encode())
-            h.update(hashlib.sha256(files[p]).digest())
+            d = files[p]
+            h.update(("F%s|%d|%d\n" % (p, len(d), hash(d))).encode())
     return h.hexdigest()
 
 
